@@ -263,10 +263,12 @@ def run_shard(prop, tier, seed, shard, nshards, out):
         for k, v in gen.WARM_STATS.items():
             if v:
                 ctx.counters["trees_" + k] += v
-        for stats in ("NESTED_STATS", "RENAMED_STATS", "HOSTILE_STATS"):
+        for stats in ("NESTED_STATS", "RENAMED_STATS", "HOSTILE_STATS", "AMBIENT_STATS"):
             for k, v in getattr(gen, stats, {}).items():
                 if v:
                     ctx.counters[k] += v
+    if not __debug__:
+        ctx.counters["shards_run_with_asserts_stripped"] += 1
     d = ctx.dump()
     d["status"] = status
     if cov is not None:
@@ -359,6 +361,10 @@ def orchestrate(prop: str, tier: str, seed: int, jobs: int) -> int:
             log = open(os.path.join(outdir, f"shard{k}.log"), "w")
             cmd = [sys.executable, "-m", "rv.check", prop, "--tier", tier, "--seed", str(seed),
                    "--shard", str(k), "--nshards", str(nshards), "--shard-out", out]
+            if nshards > 1 and k == nshards - 1:
+                # one shard of every run executes the library the way `python -O` /
+                # PYTHONOPTIMIZE=1 does (assert statements stripped): a legitimate way to run it
+                cmd.insert(1, "-O")
             if vary_hash:
                 env["PYTHONHASHSEED"] = str(derive_seed(seed, prop, "hash", k) % 4294967295)
             p = subprocess.Popen(cmd, cwd=VERIF, env=env, stdout=log, stderr=subprocess.STDOUT)
